@@ -1546,6 +1546,16 @@ fn emit_fn(src: &Src, path: &str, fd: &FnDir, bm: &[(String, String)], unit: &st
         }
     }
 
+    // the driver found that a hint of this function no longer compiles against the (changed) code
+    // (e.g. it names a local that was renamed): second run with the hints of that function dropped
+    if !hint_edits.is_empty() {
+        if let Ok(forced) = std::env::var("XTRACT_DROP_HINTS") {
+            let me = format!("{}::{}", src.rel, path);
+            if forced.split(',').any(|f| f == me) {
+                lost_hints.push(json!({"fn": me, "at": "all (a hint does not compile against the changed code)", "clause": "", "matches": 0, "vrs_line": fd.vrs_line}));
+            }
+        }
+    }
     // the hints of a function are one proof script: if any of them cannot be re-attached to the
     // (changed) code, none is spliced; the contract itself stays
     if lost_hints.is_empty() {
